@@ -53,6 +53,9 @@ var gridNums = []string{"0", "1", "-1", "2", "3", "7", "-7", "10", "2147483647",
 	"0.9999999999", "2.9999999999", "1E2", "-1E3", "5E-1", "1.0E2", "-0", "0.0", "1e400",
 	bigDigits, "-" + bigDigits, "1e-400", "123456789012345678901234567890", "0.0000000000000000000000000000001"}
 
+// longMantissaE: out of float64 range through a long mantissa and a short exponent.
+var longMantissaE = "1" + strings.Repeat("0", 250) + "e99"
+
 // bigDigits is a syntactically valid JSON number without exponent that is outside float64 range.
 var bigDigits = "1" + strings.Repeat("0", 400)
 
@@ -101,7 +104,7 @@ func gridArith() []group {
 func gridCompare() []group {
 	var vals []any
 	for _, t := range []string{"0", "1", "-1", "2", "1.5", "9007199254740992", "9007199254740993", "9223372036854775807", "9223372036854775808", "-9223372036854775808", "1e400", "0.1", "-0", "1E2", "100",
-		bigDigits, "-" + bigDigits, "123456789012345678901234567890", bigDigits + ".5"} {
+		bigDigits, "-" + bigDigits, "123456789012345678901234567890", bigDigits + ".5", longMantissaE, "-" + longMantissaE, strings.Repeat("9", 300) + "e9", "0." + strings.Repeat("0", 300) + "1e-99", "-5", "-20", "-100", "1E2", "1.5E-3"} {
 		vals = append(vals, numReprs(t)...)
 	}
 	for _, s := range []string{"", "a", "ab", "b", "A", "é", "z", "10", "9", "a\u0000"} {
@@ -209,7 +212,8 @@ func gridMethod() []group {
 		vals = append(vals, numReprs(t)...)
 		vals = append(vals, t) // string form
 	}
-	for _, s := range []string{"true", "T", "tRuE", "yes", "y", "on", "1", "false", "f", "no", "n", "off", "0", "falſe", "yeſ", "tru", "o", "2", "", " true", "1_0", "0x10", "0x1p-2", "inf", "-Infinity", "NaN", "+1", "1e2", "abc", "2023-08-15"} {
+	for _, s := range []string{"true", "T", "tRuE", "yes", "y", "on", "1", "false", "f", "no", "n", "off", "0", "falſe", "yeſ", "tru", "o", "2", "", " true", "1_0", "0x10", "0x1p-2", "inf", "-Infinity", "NaN", "+1", "1e2", "abc", "2023-08-15",
+		"000000000123", "0000000000000000000042", "-000000000001", "010", "09", "0644", "+5", " 5", "5 ", "00", "-0", "0000000002147483648", "000000000000000000009223372036854775807"} {
 		vals = append(vals, s)
 	}
 	vals = append(vals, true, false, nil, []any{float64(1), "2"}, []any{}, map[string]any{"b": float64(2), "a": float64(1)}, map[string]any{})
@@ -646,5 +650,64 @@ func gridInteract() []group {
 			add(t, d, nil)
 		}
 	}
+	// (5) nested exists / nested filters whose later steps read the OUTER @ (in a subscript, in a
+	// sibling operand), nested filters applied to array-valued items (lax unwrap inside a filter)
+	nest := []any{
+		[]any{map[string]any{"b": float64(1)}, map[string]any{"c": float64(2)}},
+		[]any{map[string]any{"c": float64(2)}, map[string]any{"b": float64(1)}},
+		map[string]any{"o": map[string]any{"pick": float64(1), "rows": []any{map[string]any{"ok": true, "vals": []any{"a", "b"}}, map[string]any{"ok": false, "vals": []any{"c", "d"}}}}},
+		[]any{map[string]any{"pick": float64(1), "rows": []any{[]any{float64(1), float64(20)}, []any{float64(0), float64(5)}}}, map[string]any{"pick": float64(0), "rows": []any{[]any{float64(20), float64(1)}}},
+			map[string]any{"pick": float64(1), "rows": []any{[]any{float64(3), float64(20), float64(7)}}}},
+	}
+	for _, d := range nest {
+		for _, t := range []string{"exists($[*] ? (exists(@.b)))", "exists($[*] ? (exists(@.c)))", "$[*] ? (exists(@ ? (exists(@.b))))", "exists($[*] ? (exists(@.b)) ? (exists(@.b)))",
+			"exists($[*] ? (!(exists(@.b))))", "(exists($[*] ? (exists(@.zz)))) is unknown", "$.o ? (@.rows ? (@.ok == true).vals[@.pick] == \"b\")", "$.o ? (@.rows[*] ? (@.ok == true).vals[@.pick] == \"b\")",
+			"$.o ? (@.rows ? (@.ok == false).vals[@.pick] == \"d\")", "$[*] ? (@.rows[*] ? (@[0] > 0) [@.pick] == 20)", "$[*] ? (@.rows ? (@.size() > 1) [@.pick] == 20)", "$[*] ? (@.rows[*] ? (@.size() > 1) [@.pick] == 20).pick",
+			"$[*] ? (@.rows[*] ? (@[0] > 0) [0] > @.pick)", "$[*] ? (exists(@.rows[*] ? (@[0] > 0)) && @.pick == 1)"} {
+			add(t, d, nil)
+		}
+	}
+	// (6) a later pair of a predicate / a later operand raises a hard error (tz-requiring comparison
+	// without WithTZ): the deciding pair stops the loop in lax mode; `is unknown` absorbs it
+	tz := []any{
+		map[string]any{"t": []any{"2023-01-01", "2023-06-01T00:00:00+00:00"}, "d": "2023-01-01", "ts": "2023-06-01T00:00:00+00:00"},
+		map[string]any{"t": []any{"12:00:00", "2023-06-01T00:00:00+00:00"}, "d": "2023-01-01", "ts": "2023-06-01T00:00:00+00:00"},
+		map[string]any{"t": []any{"2023-06-01T00:00:00+00:00", "2023-01-01"}, "d": "2024-05-05", "ts": "2023-06-01T00:00:00+00:00"},
+	}
+	for _, d := range tz {
+		for _, t := range []string{"$ ? (@.t[*].datetime() < \"2024-01-01\".datetime())", "$ ? (@.t[*].datetime() > \"2024-01-01\".datetime())", "$.t[*].datetime() < \"2024-01-01\".datetime()",
+			"($.d.date() < $.ts.timestamp_tz()) is unknown", "$.d.date() < $.ts.timestamp_tz() || 1 == 1", "1 == 2 && $.d.date() < $.ts.timestamp_tz()", "!($.d.date() < $.ts.timestamp_tz())",
+			"$ ? ((@.d.date() < @.ts.timestamp_tz()) is unknown)", "$ ? (exists(@.t[*] ? (@.datetime() < \"2024-01-01\".datetime())))", "$.t[*].datetime() == $.t[*].datetime()"} {
+			gs = append(gs, group{"#zone=UTC;usetz=0#" + t, d, nil}, group{"#zone=UTC;usetz=0#strict " + t, d, nil}, group{"#zone=UTC;usetz=1#" + t, d, nil})
+		}
+	}
+	// (7) long operand sequences (more than 16 pairs) with look-alike items of different types
+	long := []any{"1", float64(1)}
+	long2 := []any{float64(1), "1"}
+	for i := 0; i < 30; i++ {
+		long = append(long, float64(i+2))
+		long2 = append(long2, "x")
+	}
+	long3 := append([]any{"true", true, nil, "<nil>", "tr"}, long[2:]...)
+	for _, d := range []any{long, long2, long3} {
+		for _, t := range []string{"$[*] == 1", "1 == $[*]", "$[*] <= 1", "$[*] == $[0]", "$[*] starts with \"tr\"", "$[*] like_regex \"^tr\"", "$[*] == true", "$[*] == null", "$[*] == \"1\"", "$[*] == $[*]"} {
+			add(t, d, nil)
+		}
+	}
+	// (8) arithmetic: operands ending in a filter over nested arrays; `@ op literal` overflowing in a filter
+	for _, d := range []any{map[string]any{"a": []any{[]any{float64(7)}}}, map[string]any{"a": []any{[]any{float64(7)}, []any{float64(8)}}}, map[string]any{"a": []any{float64(3), float64(4)}, "b": []any{}}, map[string]any{"a": []any{float64(3), float64(4)}}} {
+		for _, t := range []string{"$.a ? (@.size() == 1) + 1", "-$.a ? (@.size() == 1)", "1 + $.a ? (@.size() == 1)", "$.a[*] + $.b", "$.b / $.a[*]", "$.a * $.b", "$.a[*] ? (@ > 3) + $.a[*] ? (@ < 4)", "$.a[*] + $.zz", "$.b[*] + $.a[*]"} {
+			add(t, d, nil)
+		}
+	}
+	for _, t := range []string{"@ * 1e308 > 0", "1e308 * @ > 0", "@ / 1e-300 > 0", "@ - 1.7e308 < 0", "@ + 1.7e308 > 0", "@ * 1e308 == @ * 1e308", "(@ * 1e308 > 0) is unknown", "@ % 1e-320 == 0", "@ / 0.1 > 0"} {
+		add("$[*] ? ("+t+")", []any{float64(1e10), float64(-1.7e308), float64(5), float64(1e308)}, nil)
+	}
+	// (9) subscript expressions that yield one number and then fail, or an array holding one number
+	subdoc := map[string]any{"a": []any{float64(10), float64(20), float64(30)}, "i": []any{float64(1)}, "j": []any{float64(1), "x"}, "k": []any{[]any{float64(1)}}}
+	for _, t := range []string{"$.a[$.i[0,1]]", "$ ? (@.a[@.i[0,1]] == 20)", "$.a[$.i]", "$.a[0 to $.i]", "$.a[$.j[*].double()]", "$.a[$.j[0 to 1].double()]", "$ ? (@.a[@.j[*].double()] == 20)", "$.a[$.k]", "$.a[$.k[0]]", "$.a[$.i[*]]", "$.a[$.i[0]]"} {
+		add(t, subdoc, nil)
+	}
+	add("$[$[0]]", []any{[]any{float64(2)}, "x", "y"}, nil)
 	return gs
 }
